@@ -112,7 +112,10 @@ theorem applyC_ctxNeutral (b : Bool) (m : Mw) (h : Handler) (hn : CtxNeutral h) 
         split
         · split <;> simpa using h1
         · simpa using h1
-  | instantAck => simpa [applyC, instantAck] using hn { st with acked := true }
+  | instantAck =>
+    have h1 := hn (ackMsg st)
+    have h2 : (ackMsg st).ctx = st.ctx := by unfold ackMsg; split <;> rfl
+    simpa [applyC, instantAck, h2] using h1
   | throttle => simpa [applyC, throttle] using hn { st with ticks := st.ticks + 1 }
   | breaker => simpa [applyC, breaker] using hn st
   | delayOnError c =>
@@ -209,7 +212,10 @@ theorem applyC_agree (m : Mw) (hm : m ≠ .timeout true) (f g : Handler) (hf : C
   | correlation => simp only [applyC, correlation, hfg st hd]
   | recoverer => simp only [applyC, recoverer, hfg st hd]
   | ignoreErrors l => simp only [applyC, ignoreErrors, hfg st hd]
-  | instantAck => simp only [applyC, instantAck]; exact hfg _ hd
+  | instantAck =>
+    simp only [applyC, instantAck]
+    have h2 : (ackMsg st).ctx = st.ctx := by unfold ackMsg; split <;> rfl
+    exact hfg _ (by rw [h2]; exact hd)
   | throttle => simp only [applyC, throttle]; exact hfg _ hd
   | breaker => simp only [applyC, breaker]; exact hfg _ hd
   | delayOnError c => simp only [applyC, delayOnError, hfg st hd]
@@ -269,7 +275,7 @@ theorem retryLoop_scripted_all_fail (o : List Out) (e : Err) (rem : Nat) :
 
 theorem scripted_eq (st : St) :
     scripted st = (headRes st.script,
-      { st with log := st.log ++ [⟨st.ctx.deadline, st.ctx.done, st.acked, st.delay⟩],
+      { st with log := st.log ++ [⟨st.ctx.deadline, st.ctx.done, st.acked, st.delay, st.ctx.far, st.nacked⟩],
                 md := (match st.hcid with | some v => mset st.md cidKey v | none => st.md),
                 script := nextScript st.script }) := by
   unfold scripted
